@@ -72,6 +72,9 @@ pub enum Event {
     SendSize(u64),
     SendCopied(u64),
     SendError,
+    DeliverSize(u64),                       // put on the ChannelUpdater's channel
+    DeliverCopied(u64),
+    DeliverError,
     Queue(Op),
     Job(Inode, Inode, int, int),            // pool job: src inode, dst inode, off, bytes
 }
